@@ -5,7 +5,7 @@ from fractions import Fraction
 from ..core.canon import fs
 
 NAME_FAMILIES = {
-    "plain": ["A", "B", "C", "D", "E", "F", "G", "H", "I"],
+    "plain": ["A", "B", "C", "D", "E", "F", "G", "H", "I", "J", "K", "L", "M", "N"],
     # listing order, sort order and (very likely) hash order all disagree
     "disorder": ["b", "A", "c10", "c9", "Z", "a", "_x", "B2", "aa"],
     "odd": ["Ann Lee", "O'Neil", "x,y", "Ünal", 'q"t', " lead", "Z z", "d.e", "K-9"],
@@ -40,11 +40,16 @@ def gen_weight(rng, fam):
         return Fraction(rng.choice([rng.randint(1, 10**6), 10**rng.randint(2, 6), rng.randint(1, 50)]))
     if fam == "rat":
         return Fraction(rng.randint(1, 12), rng.choice([1, 2, 3, 4, 5, 6]))
+    if fam == "huge":
+        # beyond float64's 53-bit mantissa: any detour through floats rounds these
+        return Fraction(rng.randint(1, 5) * 2**60 + rng.choice([0, 0, 1, -1, 3]))
     raise ValueError(fam)
 
 
 def gen_names(rng, n):
     fam = wchoice(rng, [("plain", 6), ("disorder", 3), ("odd", 1), ("nested", 1.5)])
+    if n > len(NAME_FAMILIES[fam]):
+        fam = "plain"
     names = list(NAME_FAMILIES[fam][:n])
     if rng.random() < 0.5:
         rng.shuffle(names)
@@ -53,12 +58,17 @@ def gen_names(rng, n):
 
 def gen_ranked_profile(rng, *, allow_ties=False, int_weights=False, min_c=1, max_c=6, max_ballots=10, unit_cap=None, tie_bias=0.0):
     """-> (jprofile, shape)   ballots are ranked; ties inside positions only if allow_ties"""
-    n = wchoice(rng, [(k, w) for k, w in zip(range(1, 10), [1, 3, 5, 6, 5, 3, 1, 0.5, 0.5]) if min_c <= k <= max_c])
+    if max_c > 9:
+        # "large" mode: realistic scale for the count rules (10-14 candidates, dozens of distinct ballots)
+        n = rng.randint(10, max_c)
+        max_ballots = 60
+    else:
+        n = wchoice(rng, [(k, w) for k, w in zip(range(1, 10), [1, 3, 5, 6, 5, 3, 1, 0.5, 0.5]) if min_c <= k <= max_c])
     if n >= 7:
         max_ballots = max(max_ballots, 18)
     names, fam = gen_names(rng, n)
-    wfam = wchoice(rng, [("ones", 3), ("small", 4), ("mid", 3), ("big", 1)] + ([] if int_weights else [("rat", 3)]))
-    if unit_cap and wfam == "big":
+    wfam = wchoice(rng, [("ones", 3), ("small", 4), ("mid", 3), ("big", 1), ("huge", 0.4)] + ([] if int_weights else [("rat", 3)]))
+    if unit_cap and wfam in ("big", "huge"):
         wfam = "mid"
     law = wchoice(rng, [("mixed", 5), ("full", 3), ("bullet", 2), ("sym", 2)])
     if tie_bias and rng.random() < tie_bias:
@@ -69,7 +79,7 @@ def gen_ranked_profile(rng, *, allow_ties=False, int_weights=False, min_c=1, max
     if n >= 2 and rng.random() < 0.25:
         ghosts = rng.sample(names, rng.randint(1, min(2, n - 1)))
     live = [c for c in names if c not in ghosts]
-    nb = wchoice(rng, [(0, 1)] + [(k, 4) for k in range(1, max_ballots + 1)])
+    nb = wchoice(rng, [(0, 1)] + [(k, 4) for k in range(1, max_ballots + 1)]) if max_c <= 9 else rng.randint(20, max_ballots)
     ballots = []
     if law == "sym" and len(live) >= 2:
         base = list(live)
@@ -96,6 +106,16 @@ def gen_ranked_profile(rng, *, allow_ties=False, int_weights=False, min_c=1, max
                 i = rng.randrange(k - 1)
                 r = r[:i] + [sorted(perm[i : i + 2])] + r[i + 2 :]
             ballots.append((r, gen_weight(rng, wfam)))
+    eps = False
+    if not int_weights and len(ballots) >= 2 and rng.random() < 0.06:
+        # exact-arithmetic probe: move 1e-20 of weight from one ballot to another (total unchanged, so the threshold is too).
+        # A tally that sat exactly on a threshold or in a tie is now off by less than any float can see.
+        i, j = rng.sample(range(len(ballots)), 2)
+        e = Fraction(1, 10**20)
+        if ballots[i][1] > e:
+            ballots[i] = (ballots[i][0], ballots[i][1] - e)
+            ballots[j] = (ballots[j][0], ballots[j][1] + e)
+            eps = True
     zero_w = False
     if ballots and rng.random() < 0.02:
         i = rng.randrange(len(ballots))
@@ -107,7 +127,7 @@ def gen_ranked_profile(rng, *, allow_ties=False, int_weights=False, min_c=1, max
         "candidates": names,
         "ballots": [{"r": r, "w": fs(w)} for r, w in ballots],
     }
-    shape = {"n": n, "names": fam, "wfam": wfam, "law": law, "ghosts": len(ghosts), "nb": len(ballots), "zero_w": zero_w}
+    shape = {"n": n, "names": fam, "wfam": wfam, "law": law, "ghosts": len(ghosts), "nb": len(ballots), "zero_w": zero_w, "eps": eps}
     return jp, shape
 
 
